@@ -2,38 +2,40 @@ package main
 
 import (
 	"fmt"
+
 	"path/filepath"
 	"strings"
+	"verifharness/gen"
 )
 
-func init() { register("Id62Gen.v", genId62) }
+func init() { gen.Register("Id62Gen.v", genId62) }
 
 // Id62Gen.v: the published pattern string, and how the compiler (writer) and
 // the schema reader refer to it.
 func genId62(repo string) (string, error) {
-	_, f, err := parseFile(filepath.Join(repo, "lib/id62/uuid62.go"))
+	_, f, err := gen.ParseFile(filepath.Join(repo, "lib/id62/uuid62.go"))
 	if err != nil {
 		return "", err
 	}
-	pat, ok := stringVar(f, "PatternString")
+	pat, ok := gen.StringVar(f, "PatternString")
 	if !ok {
 		return "", fmt.Errorf("lib/id62/uuid62.go: PatternString is not a string literal variable")
 	}
-	_, w, err := parseFile(filepath.Join(repo, "internal/j5s/j5convert/fields.go"))
+	_, w, err := gen.ParseFile(filepath.Join(repo, "internal/j5s/j5convert/fields.go"))
 	if err != nil {
 		return "", err
 	}
-	_, r, err := parseFile(filepath.Join(repo, "lib/j5schema/schema_from_proto.go"))
+	_, r, err := gen.ParseFile(filepath.Join(repo, "lib/j5schema/schema_from_proto.go"))
 	if err != nil {
 		return "", err
 	}
 	var sb strings.Builder
 	sb.WriteString("From Coq Require Import List NArith.\nImport ListNotations.\nLocal Open Scope N_scope.\n")
 	fmt.Fprintf(&sb, "(* lib/id62/uuid62.go: var PatternString = %q *)\n", pat)
-	fmt.Fprintf(&sb, "Definition pattern_string : list N := %s.\n", nlist([]byte(pat)))
+	fmt.Fprintf(&sb, "Definition pattern_string : list N := %s.\n", gen.NList([]byte(pat)))
 	sb.WriteString("(* references to id62.PatternString in the compiler (fields.go) and the reader (schema_from_proto.go),\n   and literal copies of the pattern text in either *)\n")
-	fmt.Fprintf(&sb, "Definition writer_refs : N := %d.\n", countSelector(w, "id62", "PatternString"))
-	fmt.Fprintf(&sb, "Definition reader_refs : N := %d.\n", countSelector(r, "id62", "PatternString"))
-	fmt.Fprintf(&sb, "Definition literal_copies : N := %d.\n", countStringLit(w, pat)+countStringLit(r, pat))
+	fmt.Fprintf(&sb, "Definition writer_refs : N := %d.\n", gen.CountSelector(w, "id62", "PatternString"))
+	fmt.Fprintf(&sb, "Definition reader_refs : N := %d.\n", gen.CountSelector(r, "id62", "PatternString"))
+	fmt.Fprintf(&sb, "Definition literal_copies : N := %d.\n", gen.CountStringLit(w, pat)+gen.CountStringLit(r, pat))
 	return sb.String(), nil
 }
